@@ -37,6 +37,18 @@ STRENGTHENED = {
     "C16-4": "first only `no-failing-input-found`; new oracle `repeat` (same tensors twice: same value, arguments not written to)",
     "C17-4": "missed; the `modules` oracle applies the SAME module instance to a second field of another shape",
     "C19-5": "missed; new oracle `copy_layout` (copy / deepcopy / pickle of channels-last, permuted-view, sliced, flipped objects)",
+    # round 3 (one seed per property: side doors — alternative entry points, glue, argument normalisation, dtype / layout)
+    "C05-6": "missed; the `sample.on_grid` stream and the ITK oracle now also go through the AlignImage / TransformImage modules "
+             "with every explicit `axes` choice (the only callers of Grid.points)",
+    "C08-6": "missed; transform cases now carry a requires_grad history (frozen after / during the setter call) between the "
+             "setter and the getter / tensor()",
+    "C09-6": "reverts the repair 35474ea like C11-4; reported by C15 (`writes-shared-exp`), the property it breaks first",
+    "C10-6": "reported by C19 (`from_images` loses the per-image grids), not by C10: the flow values are untouched",
+    "C11-6": "reported by C15 (the re-gridded transform no longer carries the state of the one it was derived from), not by C11",
+    "C13-6": "reported by C11 (ExpFlow.inverse with align_corners=False), not by C13's functional streams",
+    "C18-6": "missed; images and flow fields are now written / read through write, to_uri(path), to_uri('file://…') and read / from_uri",
+    "C19-6": "missed; `copy_layout` now also draws per-item grids that compare `==` but differ (align_corners, 2e-6 relative "
+             "centre shift) and compares the copied grids attribute by attribute instead of with Grid.__eq__",
 }
 
 
@@ -63,7 +75,12 @@ def main():
     out = ["## 12. Seeded changes and which checks catch them", "",
            "Seeds -1..-3 of every property are round 1, -4 and -5 round 2 (written against the repaired tree, with the "
            "instruction to avoid the obvious single-token edit of the main formula and to use cooperating edits, history / "
-           "cached state, or batch-size / dtype / argument-form dependence). "
+           "cached state, or batch-size / dtype / argument-form dependence), -6 round 3 (one per property, 'side doors': "
+           "alternative entry points such as modules / data-type methods / URI helpers, glue between features, argument "
+           "normalisation, dtype / device / memory layout). The first round-3 change for C12 (dropping the up-front float cast of "
+           "integer flows in spatial_derivatives) was only a defect because finite_differences truncated fractional spacings for "
+           "integer data on the unchanged tree; that is a genuine defect (repaired, 57bfa1a), after which the change is "
+           "behaviour-preserving, so it was replaced by a new one. "
            "Each change was written by a fresh sub-agent that was given only the property text and a private scratch git "
            "worktree of /repo (nothing from /verif). It compiles, passes the 88 tests, needs something specific to manifest "
            "and ships a `demo.py` that passes on the clean tree and fails with the patch. I confirm each one with "
